@@ -276,6 +276,8 @@ func (ir *IntrospectionResolver) resolveDirective(schema *ast.Schema, directive 
 			result[f.Alias] = directive.Description
 		case "locations":
 			result[f.Alias] = directive.Locations
+		case "isRepeatable":
+			result[f.Alias] = directive.IsRepeatable
 		case "args":
 			args := []map[string]interface{}{}
 			for _, arg := range directive.Arguments {
